@@ -1344,7 +1344,7 @@ func (vc *VC) modSetContractT(ct *Contract, callee *ssa.Function, set map[string
 			}
 			set["*"] = true
 		case strings.HasSuffix(m, "[*]"):
-			if t, ok := ptypes[strings.TrimSuffix(m, "[*]")]; ok {
+			if t, ok := pathType(ptypes, strings.TrimSuffix(m, "[*]")); ok {
 				switch u := t.Underlying().(type) {
 				case *types.Slice:
 					if vc.flatStruct(u.Elem()) {
@@ -1564,4 +1564,35 @@ func (vc *VC) structFamilies(T types.Type, set map[string]bool, seen map[string]
 			}
 		}
 	}
+}
+
+
+// pathType resolves p or p.f.g (p a parameter) to its static type.
+func pathType(ptypes map[string]types.Type, path string) (types.Type, bool) {
+	parts := strings.Split(path, ".")
+	t, ok := ptypes[parts[0]]
+	if !ok {
+		return nil, false
+	}
+	for _, f := range parts[1:] {
+		if pt, ok := t.Underlying().(*types.Pointer); ok {
+			t = pt.Elem()
+		}
+		st, ok := t.Underlying().(*types.Struct)
+		if !ok {
+			return nil, false
+		}
+		found := false
+		for i := 0; i < st.NumFields(); i++ {
+			if st.Field(i).Name() == f {
+				t = st.Field(i).Type()
+				found = true
+				break
+			}
+		}
+		if !found {
+			return nil, false
+		}
+	}
+	return t, true
 }
